@@ -32,6 +32,8 @@ Definition offered (o : op) : list value :=
   | OSetDefault _ (VAtom a) => [VAtom a]
   | OExpires (Some w) => [w]
   | OInit _ h m | OApply _ h m _ => List.map snd h ++ List.map snd m
+  | OSetCookie _ _ true opts =>                                  (* cookie options, once set_cookie checks them (F35) *)
+    flat_map (fun o => match o_val o with Some v => [v] | None => [] end) opts
   | _ => []
   end.
 
@@ -40,6 +42,11 @@ Definition guarded_op (o : op) : Prop :=
   match o with
   | OUpdate _ => False
   | OSetDefault _ (VList _) => False
+  | OSetCookie _ _ checked opts =>
+    (* set_cookie passes option values through _hval (fix F35), and http.cookies renders a value
+       that passed it without CR/LF/NUL (the rendering is external: the operation carries it) *)
+    checked = true
+    /\ Forall (fun o => forall v t, o_val o = Some v -> hval v = HOk t -> clean (o_frag o)) opts
   | _ => True
   end.
 
@@ -154,14 +161,25 @@ Proof.
   - destruct (append_all_refused m d H) as [d' [e He]]. rewrite He. simpl. eauto.
 Qed.
 
+Lemma apply_opts_refused name opts : forall j,
+  Exists refused (flat_map (fun o => match o_val o with Some v => [v] | None => [] end) opts) ->
+  exists j' e, apply_opts true name j opts = (j', Some e).
+Proof.
+  induction opts as [|o r IH]; intros j H; simpl in *; [inversion H|].
+  destruct (o_val o) as [v|] eqn:Ev; [|eauto].
+  simpl in H. inversion H as [? ? Hv|? ? Hr]; subst.
+  - destruct (hval_refused v Hv) as [E|E]; rewrite E; eauto.
+  - destruct (hval v); eauto. destruct (is_reserved (o_key o)); eauto.
+Qed.
+
 Lemma step_rejects s o :
   Exists refused (offered o) ->
   match o with
-  | OInit _ _ _ => exists e, snd (step s o) = Some e
+  | OInit _ _ _ | OSetCookie _ _ _ _ => exists e, snd (step s o) = Some e
   | _ => exists e, step s o = (s, Some e)
   end.
 Proof.
-  intros H. destruct o as [k v|k v|k v|items|k| |p v|w|st h m|st h m cs|n v|c]; simpl in H;
+  intros H. destruct o as [k v|k v|k v|items|k| |p v|w|st h m|st h m cs|n v chk opts|c|k d| |ns|p|]; simpl in H;
     try (now inversion H).
   - inversion H as [? ? Hv|? ? Hr]; [|inversion Hr]. subst.
     destruct (setitem_refused (st_store s) k v Hv) as [e He]. simpl. rewrite He. simpl. eauto.
@@ -179,6 +197,9 @@ Proof.
   - apply init_run_refused. exact H.
   - destruct (init_run_refused st h m H) as [e He]. simpl.
     destruct (init_run st h m) as [src oe]. simpl in He. subst oe. eauto.
+  - destruct chk; [|inversion H]. simpl. unfold set_cookie_opts.
+    destruct (cookie_value_set (st_jar s) n v) as [j1|e]; [|simpl; eauto].
+    destruct (apply_opts_refused n opts j1 H) as [j' [e He]]. rewrite He. simpl. eauto.
 Qed.
 
 (* ------------------------------------------------------------------ *)
@@ -248,16 +269,21 @@ Proof.
   destruct (append_all d m) as [d' oe]. exact H2.
 Qed.
 
+Lemma clear_names_ok names : forall d, store_ok d -> store_ok (clear_names d names).
+Proof.
+  induction names as [|n r IH]; intros d Hd; simpl; [assumption|]. apply IH. now apply sdel_ok.
+Qed.
+
 Lemma step_ok s o : guarded_op o -> store_ok (st_store s) -> store_ok (st_store (fst (step s o))).
 Proof.
   intros G Hs.
-  destruct o as [k v|k v|k v|items|k| |p v|w|st h m|st h m cs|n v|c]; simpl in *.
+  destruct o as [k v|k v|k v|items|k| |p v|w|st h m|st h m cs|n v chk opts|c|k d| |ns|p|]; simpl in *.
   - destruct (h_setitem (st_store s) k v) eqn:E; simpl; [eapply setitem_ok; eassumption | assumption].
   - destruct (h_append (st_store s) k v) eqn:E; simpl; [eapply append_ok; eassumption | assumption].
   - destruct v as [a|l]; [|contradiction].
     destruct (h_setdefault (st_store s) k (VAtom a)) eqn:E; simpl; [eapply setdefault_ok; eassumption | assumption].
   - contradiction.
-  - destruct (sget k (st_store s)); simpl; [now apply sdel_ok | assumption].
+  - unfold del_key. destruct (sget k (st_store s)); simpl; [now apply sdel_ok | assumption].
   - constructor.
   - destruct (h_setitem (st_store s) _ v) eqn:E; simpl; [eapply setitem_ok; eassumption | assumption].
   - destruct w as [w|]; [|assumption].
@@ -265,8 +291,15 @@ Proof.
   - apply init_run_ok.
   - pose proof (init_run_ok st h m) as Hi. destruct (init_run st h m) as [src [e|]]; [assumption|].
     destruct (set_cookies [] cs) as [j [e|]]; simpl; assumption.
-  - repeat match goal with |- context [match ?x with _ => _ end] => destruct x end; simpl; assumption.
+  - destruct (set_cookie_opts chk (st_jar s) n v opts); simpl; assumption.
   - destruct (status_ok c); simpl; assumption.
+  - destruct d; [simpl; now apply sdel_ok|].
+    unfold del_key. destruct (sget k (st_store s)); simpl; [now apply sdel_ok | assumption].
+  - destruct (rev (st_store s)) as [|x r] eqn:E; simpl; [assumption|].
+    unfold store_ok in *. apply Forall_rev. apply Forall_rev in Hs. rewrite E in Hs. now inversion Hs.
+  - destruct ns as [|n0 ns']; [constructor|]. apply clear_names_ok. assumption.
+  - unfold del_key. destruct (sget (prop_name p) (st_store s)); simpl; [now apply sdel_ok | assumption].
+  - assumption.
 Qed.
 
 Lemma run_ok ops : forall s, Forall guarded_op ops -> store_ok (st_store s) -> store_ok (st_store (run s ops)).
